@@ -174,9 +174,14 @@ def run_case(b: Batch, cfg, filters, led, tp, _retry=False):
                 sess = MultiSession(u, filters, cfg["recursive"], cfg["full"], led, tp)
                 break
             except OSError as e:
-                if e.errno not in (_errno.EMFILE, _errno.ENFILE, _errno.ENOSPC) or attempt == 5:
+                if e.errno not in (_errno.EMFILE, _errno.ENFILE, _errno.ENOSPC):
                     raise
                 b.count("environment_backoffs")
+                if attempt == 5:
+                    # the per-user inotify instance limit (128) is shared with every other job on the machine: this case
+                    # is not run (too few comparisons overall make the run inconclusive through the minimum counters)
+                    b.count("cases_skipped_for_lack_of_inotify_instances")
+                    return
                 time.sleep(1.0 + attempt)
         pacer = Pacer()
         gen = OpGen(u, r, bias=BIAS, allow_out_ops=cfg.get("out_ops", False))
@@ -317,7 +322,7 @@ def plan(tier, seed, jobs):
             specs.append({"kind": "mix", "n": 24, "seed": seed, "j": j, "budget_s": 55, "k": 6})
     else:
         for j in range(jobs * 3):
-            specs.append({"kind": "mix", "n": 200, "seed": seed, "j": j, "budget_s": 800, "k": 8})
+            specs.append({"kind": "mix", "n": 260, "seed": seed, "j": j, "budget_s": 800, "k": 6})  # 7 inotify instances per case x 16 workers stays below the per-user limit of 128
     return specs
 
 
